@@ -2055,6 +2055,18 @@ def r_index_array_dtype(ctx, f: FunctionInfo, pname: str, rule="R-KIND", chain=N
             and isinstance(n.value, ast.Call) and unparse(n.value.func) in ("np.array", "numpy.array", "np.asarray", "numpy.asarray") and n.value.args
             and isinstance(n.value.args[0], ast.Name) and n.value.args[0].id == pname]
     if not conv:
+        # in-line form: X[.., np.array(p) - 1] -- the conversion sits inside the subscript
+        for x in walk_no_nested(f.node):
+            if not isinstance(x, ast.Subscript):
+                continue
+            for c in ast.walk(x.slice):
+                if isinstance(c, ast.Call) and unparse(c.func) in ("np.array", "numpy.array", "np.asarray", "numpy.asarray") and c.args and isinstance(c.args[0], ast.Name) and c.args[0].id == pname:
+                    typed = any(kw.arg == "dtype" and "int" in unparse(kw.value) for kw in c.keywords) or (len(c.args) > 1 and "int" in unparse(c.args[1]))
+                    ctx.ob(rule, f, f"the index array made from the list `{pname}` has an integer dtype (an empty list included)", typed,
+                           f"`{unparse(c)[:60]}`" if typed else
+                           f"`{unparse(c)[:60]}` gives a float64 array for the empty list: the empty permutation / set of positions then fails as an index "
+                           "(IndexError: arrays used as indices must be of integer type)", c, chain=chain)
+                    return
         return
     n = conv[0]
     # used as an index array AFTER the conversion (x[.., p] with p itself an element of the subscript, not p[0])
@@ -2342,8 +2354,9 @@ def r_stale_length(ctx, f: FunctionInfo, rule="R-ENUM", chain=None):
 # ---------------------------------------------------------------------------------------------
 # exits confirmed by reading to be independent of the option (one line of reason each)
 _OPTION_FREE_EXITS = {
-    ("symmetric_projection", "partial"): "p = 1: the projector is the identity, which is also its own isometry form",
-    ("antisymmetric_projection", "partial"): "p = 1: the projector is the identity, which is also its own isometry form",
+    ("symmetric_projection", "partial"): ("np.eye(dim)", "p = 1: the projector is the identity, which is also its own isometry form"),
+    ("antisymmetric_projection", "partial"): ("np.eye(dim)", "p = 1: the projector is the identity, which is also its own isometry form"),
+    ("permute_systems", "inv_perm"): ("np.array(input_mat)", "a one-row matrix with row_only: nothing is permuted, in either direction"),
 }
 
 
@@ -2354,7 +2367,7 @@ def r_option_before_return(ctx, f: FunctionInfo, rule="R-THREAD", chain=None):
     opts = [p.name for p in f.params if isinstance(getattr(p, "default", None), ast.Constant) and isinstance(p.default.value, bool)]
     n_sites = 0
     for p in opts:
-        free = "np.eye(dim)" if (f.name, p) in _OPTION_FREE_EXITS else None
+        free = _OPTION_FREE_EXITS[(f.name, p)][0] if (f.name, p) in _OPTION_FREE_EXITS else None
         reads = [x for x in walk_no_nested(f.node) if isinstance(x, ast.Name) and x.id == p and isinstance(x.ctx, ast.Load)]
         if not reads:
             continue
@@ -2717,3 +2730,56 @@ def r_signed_difference(ctx, f: FunctionInfo, rule="R-DTYPE", chain=None):
                f"`{unparse(bad)[:60]}` (line {bad.lineno}) subtracts entries of `{bad.left.value.id}` in the caller's dtype: an unsigned integer array wraps around instead of going negative, "
                "so the sign of every difference is +1 (perm_sign(np.array([2, 1], dtype=np.uint8)) == +1)", bad, chain=chain)
     return 1 if bad else 0
+
+
+
+# ---------------------------------------------------------------------------------------------
+def r_recursion_empty_base(ctx, f: FunctionInfo, rule="R-BASE", chain=None):
+    """A function that calls itself on a tail slice of its argument (f(x[k:])) shortens the argument by k per level -- until it is empty, and
+    the tail of an empty sequence is empty again.  Unless some returning branch ahead of the recursive call is taken for the EMPTY argument,
+    the call f([]) (and every length that steps over the other base cases) never terminates."""
+    rec = None
+    for c in walk_no_nested(f.node):
+        if isinstance(c, ast.Call) and isinstance(c.func, ast.Name) and c.func.id == f.name and c.args and isinstance(c.args[0], ast.Subscript) \
+                and isinstance(c.args[0].slice, ast.Slice) and c.args[0].slice.upper is None and isinstance(c.args[0].value, ast.Name):
+            rec = c
+    if rec is None:
+        return 0
+    x = rec.args[0].value.id
+    lens = {x_.targets[0].id for x_ in walk_no_nested(f.node) if isinstance(x_, ast.Assign) and len(x_.targets) == 1 and isinstance(x_.targets[0], ast.Name)
+            and isinstance(x_.value, ast.Call) and getattr(x_.value.func, "id", "") == "len" and x_.value.args and unparse(x_.value.args[0]) == x}
+    lens |= {w.target.id for w in walk_no_nested(f.node) if isinstance(w, ast.NamedExpr) and isinstance(w.value, ast.Call) and getattr(w.value.func, "id", "") == "len"
+             and w.value.args and unparse(w.value.args[0]) == x}
+
+    class Z(ast.NodeTransformer):
+        def visit_NamedExpr(self, n):
+            return self.visit(n.value)
+
+        def visit_Call(self, n):
+            if getattr(n.func, "id", "") == "len" and n.args and unparse(n.args[0]) == x:
+                return ast.Constant(0)
+            return self.generic_visit(n)
+
+        def visit_Name(self, n):
+            if n.id in lens:
+                return ast.Constant(0)
+            if n.id == x:
+                return ast.List(elts=[], ctx=ast.Load())
+            return n
+    has = False
+    import copy
+    for n in f.node.body:
+        if getattr(n, "lineno", 0) >= rec.lineno:
+            break
+        if isinstance(n, ast.If) and n.body and isinstance(n.body[-1], (ast.Return, ast.Raise)):
+            try:
+                t = ast.fix_missing_locations(ast.Expression(Z().visit(copy.deepcopy(n.test))))
+                if eval(compile(t, "<base>", "eval"), {"__builtins__": {}}, {}):  # noqa: S307 -- constants and comparisons only
+                    has = True
+            except Exception:  # noqa: BLE001
+                continue
+    ctx.ob(rule, f, f"the recursion on `{unparse(rec.args[0])}` has a base case for the empty argument", has,
+           "a returning branch is taken for length 0" if has else
+           f"`{unparse(rec)}` (line {rec.lineno}): no branch ahead of it returns for an empty `{x}`, and `[][{unparse(rec.args[0].slice)}]` is empty again -- {f.name}(0) / {f.name}([]) recurses "
+           "until RecursionError", rec, chain=chain)
+    return 1
